@@ -48,6 +48,9 @@ func runC04(t *testing.T, seed uint64, m *Mask) *Report {
 	cutUsed := false
 	for i := 0; i < n; i++ {
 		op := world.GenOp(r, i, seed, genProto)
+		if op.MetaK == "" {
+			op.MetaK = "Mk" // the veto plugins of this check key on a metadata value
+		}
 		if op.Kind == "push" {
 			op.Kind = []string{"call", "async"}[r.Intn(2)]
 			if op.Route == "note" {
